@@ -293,3 +293,65 @@ def _replay_keys(keys, scheme):
         return False, "keys preserved"
     finally:
         shutil.rmtree(d, ignore_errors=True)
+
+
+
+# ------------------------------------------------------------------ timestamp keys: text form keeps every digit ---
+class _TS:
+    """pandas.Timestamp contract as far as path_string uses it: a count of nanoseconds; isoformat(timespec='auto')
+    prints every non-zero digit group (seconds / micro / nano), a coarser timespec truncates"""
+
+    def __init__(self, ns):
+        self.ns = ns
+
+    def isoformat(self, sep="T", timespec="auto"):
+        sec, frac = self.ns // 1000000000, self.ns % 1000000000
+        if timespec == "auto":
+            timespec = "nanoseconds" if frac % 1000 else ("microseconds" if frac else "seconds")
+        digits = {"seconds": 0, "milliseconds": 3, "microseconds": 6, "nanoseconds": 9}[timespec]
+        kept = frac // (10 ** (9 - digits)) if digits else 0
+        return ("S", sec, digits, kept)          # stands for the text 'S<sec>.<kept written with `digits` digits>'
+
+
+def _parse_ts(text):
+    tag, sec, digits, kept = text
+    return sec * 1000000000 + (kept * 10 ** (9 - digits) if digits else 0)
+
+
+class _PDts:
+    Timestamp = _TS
+
+
+def h_timestamp_text(ns: int) -> bool:
+    """
+    pre: 0 <= ns < 4102444800000000000
+    post: __return__
+    """
+    # the directory text of a timestamp key determines the key: parsing it gives back the same nanosecond count
+    saved = util.pd
+    util.pd = _PDts
+    try:
+        text = util.path_string(_TS(ns))
+    finally:
+        util.pd = saved
+    return isinstance(text, tuple) and _parse_ts(text) == ns
+
+
+def replay_h_timestamp_text(ns):
+    import shutil, tempfile
+    import pandas as pd
+    import fastparquet
+    ts = [pd.Timestamp(ns), pd.Timestamp(ns + 86400 * 10 ** 9)]
+    df = pd.DataFrame({"k": ts, "v": [0, 1]})
+    d = tempfile.mkdtemp(prefix="c08-")
+    try:
+        dn = os.path.join(d, "ds")
+        fastparquet.write(dn, df, file_scheme="hive", partition_on=["k"])
+        out = fastparquet.ParquetFile(dn).to_pandas()
+        got = sorted((pd.Timestamp(k).value, int(v)) for k, v in zip(out["k"], out["v"]))
+        want = sorted((t.value, i) for i, t in enumerate(ts))
+        if got != want:
+            return True, "timestamp partition key %s (ns=%d) comes back as %s" % (ts[0], ns, pd.Timestamp(got[0][0]))
+        return False, "timestamp keys preserved"
+    finally:
+        shutil.rmtree(d, ignore_errors=True)
